@@ -328,6 +328,47 @@ macro_rules! simple {
 	}};
 }
 
+/// C13: the URI type and its IRI twin, on the same (ASCII) texts, compare, order and hash alike.
+fn family_agree<U: ?Sized + PartialEq + Ord + Hash, I: ?Sized + PartialEq + Ord + Hash>(
+	f: &mut Fails,
+	tag: &str,
+	us: &[&U],
+	is: &[&I],
+	texts: &[String],
+) {
+	let n = us.len();
+	let mut c = Capped { f, seen: Default::default(), cap: 3 };
+	let hu: Vec<Option<u64>> = us.iter().map(|v| guard(|| h(*v)).ok()).collect();
+	let hi: Vec<Option<u64>> = is.iter().map(|v| guard(|| h(*v)).ok()).collect();
+	for i in 0..n {
+		for j in 0..n {
+			c.check();
+			if let (Ok((eu, ou)), Ok((ei, oi))) = (guard(|| (*us[i] == *us[j], us[i].cmp(us[j]))), guard(|| (*is[i] == *is[j], is[i].cmp(is[j])))) {
+				if eu != ei {
+					c.fail(&["C13"], &format!("{tag}.eq.uri_vs_iri"), json!({"a": texts[i], "b": texts[j], "uri": eu, "iri": ei}));
+				}
+				if ou != oi {
+					c.fail(&["C13"], &format!("{tag}.cmp.uri_vs_iri"), json!({"a": texts[i], "b": texts[j], "uri": sign(ou), "iri": sign(oi)}));
+				}
+			}
+			if let (Some(a), Some(b), Some(x), Some(y)) = (hu[i], hu[j], hi[i], hi[j]) {
+				if (a == b) != (x == y) {
+					c.fail(&["C13"], &format!("{tag}.hash.uri_vs_iri"), json!({"a": texts[i], "b": texts[j]}));
+				}
+			}
+		}
+	}
+	c.finish();
+}
+
+macro_rules! twins {
+	($f:ident, $tag:expr, $texts:ident, $U:ty, $I:ty) => {{
+		let us: Vec<&$U> = $texts.iter().map(|s| <$U>::new(s.as_str()).expect("spec-valid value")).collect();
+		let is: Vec<&$I> = $texts.iter().map(|s| <$I>::new(s.as_str()).expect("URI value is an IRI value")).collect();
+		family_agree::<$U, $I>($f, $tag, &us, &is, &$texts);
+	}};
+}
+
 /// One heterogeneous comparison impl `L: PartialEq<R> + PartialOrd<R>`: its results must be
 /// those of the homogeneous comparison of the same two values (class key for ==, `base` for
 /// the order), whatever the holders (owned, borrowed, reference to borrowed) are.
@@ -423,23 +464,31 @@ pub fn run(case: &Value, f: &mut Fails) {
 		"UAuthority" => {
 			simple!(f, ty, texts, canon, uri::Authority, uri::AuthorityBuf);
 			streq_ref!(f, ty, texts, uri::Authority);
+			twins!(f, "UAuthority", texts, uri::Authority, iri::Authority);
 		}
 		"UUserInfo" => {
 			simple!(f, ty, texts, canon, uri::UserInfo, uri::UserInfoBuf);
 			streq_ref!(f, ty, texts, uri::UserInfo);
+			twins!(f, "UUserInfo", texts, uri::UserInfo, iri::UserInfo);
 		}
 		"UHost" => {
 			simple!(f, ty, texts, canon, uri::Host, uri::HostBuf);
 			streq_ref!(f, ty, texts, uri::Host);
+			twins!(f, "UHost", texts, uri::Host, iri::Host);
 		}
-		"USegment" => simple!(f, ty, texts, canon, uri::Segment, uri::SegmentBuf),
+		"USegment" => {
+			simple!(f, ty, texts, canon, uri::Segment, uri::SegmentBuf);
+			twins!(f, "USegment", texts, uri::Segment, iri::Segment);
+		}
 		"UQuery" => {
 			simple!(f, ty, texts, canon, uri::Query, uri::QueryBuf);
 			streq_ref!(f, ty, texts, uri::Query);
+			twins!(f, "UQuery", texts, uri::Query, iri::Query);
 		}
 		"UFragment" => {
 			simple!(f, ty, texts, canon, uri::Fragment, uri::FragmentBuf);
 			streq_ref!(f, ty, texts, uri::Fragment);
+			twins!(f, "UFragment", texts, uri::Fragment, iri::Fragment);
 		}
 		"IAuthority" => {
 			simple!(f, ty, texts, canon, iri::Authority, iri::AuthorityBuf);
@@ -466,6 +515,7 @@ pub fn run(case: &Value, f: &mut Fails) {
 			let vals: Vec<&uri::Path> = texts.iter().map(|s| uri::Path::new(s.as_str()).expect("valid")).collect();
 			group::<uri::Path>(f, ty, &vals, &texts, &canon);
 			streq!(f, ty, texts, uri::Path);
+			twins!(f, "UPath", texts, uri::Path, iri::Path);
 		}
 		"IPath" => {
 			let vals: Vec<&iri::Path> = texts.iter().map(|s| iri::Path::new(s.as_str()).expect("valid")).collect();
@@ -475,6 +525,7 @@ pub fn run(case: &Value, f: &mut Fails) {
 		"UriRef" => {
 			simple!(f, ty, texts, canon, uri::UriRef, uri::UriRefBuf);
 			streq!(f, ty, texts, uri::UriRef);
+			twins!(f, "UriRef", texts, uri::UriRef, iri::IriRef);
 		}
 		"IriRef" => {
 			simple!(f, ty, texts, canon, iri::IriRef, iri::IriRefBuf);
@@ -489,6 +540,7 @@ pub fn run(case: &Value, f: &mut Fails) {
 			views_agree::<uri::UriBuf, iri::Iri>(f, "Uri.as_Iri", keys.clone(), &texts);
 			views_agree::<uri::UriBuf, iri::IriRef>(f, "Uri.as_IriRef", keys, &texts);
 			cross_uri(f, &texts, &canon);
+			twins!(f, "Uri", texts, uri::Uri, iri::Iri);
 			cross_family!(f, texts, canon, uri::Uri, uri::UriBuf, uri::UriRef, uri::UriRefBuf, 0, "uri");
 		}
 		"Iri" => {
